@@ -148,7 +148,26 @@ pub const INJECTORS: &[Inj] = &[
         name: "wrong-algorithm",
         stage: Stage::Algorithm,
         apply: |b, r| {
-            b.ov.algorithm = Some(r.pick(&["AWS4-HMAC-SHA512", "AWS3-HTTPS", "aws4-hmac-sha256", "AWS4-HMAC-SHA256x", "Bearer"]).to_string());
+            b.ov.algorithm = Some(
+                r.pick(&[
+                    "AWS4-HMAC-SHA512",
+                    "AWS3-HTTPS",
+                    "aws4-hmac-sha256",
+                    "AWS4-HMAC-SHA256x",
+                    "Bearer",
+                    // near misses that merely contain / end with / start with the right token
+                    "XAWS4-HMAC-SHA256",
+                    "AWS3-AWS4-HMAC-SHA256",
+                    "Bearer/AWS4-HMAC-SHA256",
+                    "AWS4-HMAC-SHA256-X",
+                    "AWS4-HMAC-SHA256,",
+                    "AWS4-HMAC-SHA25",
+                    "WS4-HMAC-SHA256",
+                    "AWS4-HMAC-SHA256AWS4-HMAC-SHA256",
+                    "AWS4_HMAC_SHA256",
+                ])
+                .to_string(),
+            );
             true
         },
     },
